@@ -748,3 +748,130 @@ C12_INIT_PLATES = dict(
     implicit_return="tt",
 )
 ALL += [C12_INIT_OBS, C12_INIT_PLATES]
+
+# ---- C02: persistence of Screen and ExperimentSpace (data.py; vocabulary: end of Model/Persist.v) ----
+# An HDF5 file is `h5raw`: its datasets and attributes by name.  Trusted per entry: ONE h5py call / attribute read /
+# codec call each -
+#   f.create_dataset(NAME, data=d[, compression="gzip"])  appends (NAME, d) to the datasets; an existing NAME raises
+#   f.attrs[NAME] = v / f.attrs[NAME]                      set / read an attribute (KeyError when absent)
+#   f[NAME][:]                                             the stored array (KeyError when absent)
+#   encode_string_array / decode_string_array: translated themselves (C02_CODEC, per array rank); inside them
+#       arr.size == 0, np.empty(arr.shape, dtype=...) (= arr where it has no element), np.char.encode / decode (the identity on
+#       the strings of an array WITH elements; numpy answers an array without elements with a float64 array: an error)
+#   .astype(str) on a string array: the identity on its values; the translator keeps str arrays (`name`) and bytes
+#       arrays (`bname`) apart, so a missing codec call is refused
+#   self.<attr> of a Screen: the column of its rows / its id array / its mapping as a tuple of aligned arrays;  m[i]: projection
+# NAME is matched literally per dataset (table below): an unknown name has no primitive and stops the build.
+_KIND = {"S2": ("(h5_2d bname)", "V_S2", "h5_read_s2"), "N2": ("(h5_2d Z)", "V_N2", "h5_read_n2"),
+         "S1": ("list bname", "V_S1", "h5_read_s1"), "N1": ("list Z", "V_N1", "h5_read_n1"), "B1": ("list bool", "V_B1", "h5_read_b1")}
+_SCREEN_DATASETS = [
+    ("treatment_names", "S2"), ("treatment_doses", "N2"), ("treatment_ids", "N2"),
+    ("treatment_mapping_names", "S1"), ("treatment_mapping_doses", "N1"), ("treatment_mapping_ids", "N1"),
+    ("observations", "N1"), ("observation_mask", "B1"), ("sample_ids", "N1"), ("sample_names", "S1"),
+    ("sample_mapping_names", "S1"), ("sample_mapping_ids", "N1"), ("plate_ids", "N1"), ("plate_names", "S1")]
+_SPACE_DATASETS = [("treatment_names", "S1"), ("treatment_doses", "N1"), ("treatment_ids", "N1"), ("sample_names", "S1"), ("sample_ids", "N1")]
+_TMAP_T, _SMAP_T = "(list name * list Z * list Z)", "(list name * list Z)"
+
+
+def _h5_writes(table, extra):       # one effect per dataset name
+    return [("f.create_dataset('%s', data=__d%s)" % (n, extra), "f'", "!h5_create {state} K_%s (%s {d})" % (n, _KIND[k][1])) for n, k in table]
+
+
+def _h5_reads(table):               # one primitive per dataset name
+    return [("__f['%s'][:]" % n, "!%s {f} K_%s" % (_KIND[k][2], n), _KIND[k][0], {"f": "h5raw"}) for n, k in table]
+
+
+# encode_string_array / decode_string_array run the translated helpers (C02_CODEC below), per array rank
+_CODEC = [("encode_string_array(__a)", "!src_encode_string_array_2d {a}", "(h5_2d bname)", {"a": "(h5_2d name)"}),
+          ("encode_string_array(__a)", "!src_encode_string_array_1d {a}", "list bname", {"a": "list name"}),
+          ("decode_string_array(__a)", "!src_decode_string_array_2d {a}", "(h5_2d name)", {"a": "(h5_2d bname)"}),
+          ("decode_string_array(__a)", "!src_decode_string_array_1d {a}", "list name", {"a": "list bname"}),
+          ("__a.astype(str)", "{a}", "list name", {"a": "list name"})]
+_TUPLE_ITEMS = [("__m[0]", "fst (fst {m})", "list name", {"m": _TMAP_T}), ("__m[1]", "snd (fst {m})", "list Z", {"m": _TMAP_T}),
+                ("__m[2]", "snd {m}", "list Z", {"m": _TMAP_T}),
+                ("__m[0]", "fst {m}", "list name", {"m": _SMAP_T}), ("__m[1]", "snd {m}", "list Z", {"m": _SMAP_T})]
+_SET_CTRL = [("f.attrs['control_treatment_name'] = __v", "f'", "h5_set_attr {state} K_control_treatment_name {v}")]
+_GET_CTRL = ("__f.attrs['control_treatment_name']", "!h5_attr {f} K_control_treatment_name", "name", {"f": "h5raw"})
+_C02 = dict(file="src/batchie/data.py", out="SrcPersist.v", imports="Model.Encode Model.Screen Model.Persist", overload=True)
+
+
+def _codec_fn(func, rank, src_t, dst_t, call, empty):
+    """the module-level helper `func` on an array of that rank: the `arr.size == 0` guard, np.empty, np.char.<codec>"""
+    return dict(_C02, func=func, name="src_%s_%dd" % (func, rank), pyparams=["arr"], params=[("arr", src_t)], returns=dst_t, vars={},
+                prims=[("arr.size == 0", "arr%d_empty arr'" % rank, "bool"),
+                       (empty, "!np_empty_like%d arr'" % rank, dst_t),
+                       (call, "!np_char_codec%d arr'" % rank, dst_t)])
+
+
+C02_CODEC = [_codec_fn("encode_string_array", 1, "list name", "list bname", "np.char.encode(arr)", "np.empty(arr.shape, dtype='S1')"),
+             _codec_fn("encode_string_array", 2, "(h5_2d name)", "(h5_2d bname)", "np.char.encode(arr)", "np.empty(arr.shape, dtype='S1')"),
+             _codec_fn("decode_string_array", 1, "list bname", "list name", "np.char.decode(arr, 'utf-8')", "np.empty(arr.shape, dtype=str)"),
+             _codec_fn("decode_string_array", 2, "(h5_2d bname)", "(h5_2d name)", "np.char.decode(arr, 'utf-8')", "np.empty(arr.shape, dtype=str)")]
+
+C02_SCREEN_SAVE = dict(
+    _C02, cls="Screen", func="save_h5", name="src_screen_save_h5", pyparams=["self", "fn"],
+    params=[("self", "screen")], returns="h5raw",       # returns what has been written to `fn`
+    vars={"f": "h5raw"},
+    contexts=[("h5py.File(fn, 'w')", "h5_empty", "h5raw")],
+    prims=_CODEC + _TUPLE_ITEMS + [
+        ("self.treatment_names", "sc_tnames self'", "(h5_2d name)"), ("self.treatment_doses", "sc_tdoses self'", "(h5_2d Z)"),
+        ("self.treatment_ids", "sc_tids self'", "(h5_2d Z)"),
+        ("self.treatment_mapping", "tmap_cols (s_tmap self')", _TMAP_T), ("self.sample_mapping", "smap_cols (s_smap self')", _SMAP_T),
+        ("self.observations", "sc_obs self'", "list Z"), ("self.observation_mask", "sc_mask self'", "list bool"),
+        ("self.sample_ids", "s_sids self'", "list Z"), ("self.sample_names", "sc_snames self'", "list name"),
+        ("self.plate_ids", "s_pids self'", "list Z"), ("self.plate_names", "sc_pnames self'", "list name"),
+        ("self.control_treatment_name", "s_ctrl self'", "name")],
+    effects=_h5_writes(_SCREEN_DATASETS, ", compression='gzip'"),
+    assign_effects=_SET_CTRL,
+    implicit_return="{f}",
+)
+# Screen(...): the model's constructor on arrays, applied to the keyword arguments THE CALL SITE passes (py2gal kwcalls);
+# a parameter that is not passed takes the default of Screen.__init__'s signature (checked by C12's _INIT.pydefaults)
+_SCREEN_ON_ARRAYS = {"Screen": (
+    "!arrays_screen {treatment_names} {treatment_doses} {sample_names} {plate_names} {observations} {observation_mask} "
+    "{control_treatment_name} {treatment_mapping} {sample_mapping}", "screen",
+    [("treatment_names", "(h5_2d name)", None), ("treatment_doses", "(h5_2d Z)", None),
+     ("sample_names", "list name", None), ("plate_names", "list name", None),
+     ("observations", "opt list Z", "None"), ("observation_mask", "opt list bool", "None"),
+     ("control_treatment_name", "opt name", "None"),
+     ("treatment_mapping", "opt " + _TMAP_T, "None"), ("sample_mapping", "opt " + _SMAP_T, "None")])}
+C02_SCREEN_LOAD = dict(
+    _C02, cls="Screen", func="load_h5", name="src_screen_load_h5", pyparams=["path"],
+    params=[("h5", "h5raw")], returns="screen",       # h5 = what the file at `path` holds
+    vars={"f": "h5raw"},
+    contexts=[("h5py.File(path, 'r')", "h5", "h5raw")], with_return=True,
+    prims=_CODEC + _h5_reads(_SCREEN_DATASETS) + [_GET_CTRL],
+    kwcalls=_SCREEN_ON_ARRAYS,
+)
+# ExperimentSpace(...) = cls(...) in its classmethods: stores its three arguments (no subclass in the tree)
+_SPACE_ON_ARRAYS = {"cls": (
+    "!arrays_space {treatment_mapping} {sample_mapping} {control_treatment_name}", "space",
+    [("treatment_mapping", _TMAP_T, None), ("sample_mapping", _SMAP_T, None), ("control_treatment_name", "name", "[]")])}
+C02_SPACE_FROM_SCREEN = dict(
+    _C02, cls="ExperimentSpace", func="from_screen", name="src_space_from_screen", pyparams=["cls", "screen"],
+    params=[("screen", "screen")], returns="space", vars={},
+    prims=[("screen.treatment_mapping", "tmap_cols (s_tmap screen')", _TMAP_T),
+           ("screen.sample_mapping", "smap_cols (s_smap screen')", _SMAP_T),
+           ("screen.control_treatment_name", "s_ctrl screen'", "name")],
+    kwcalls=_SPACE_ON_ARRAYS,
+)
+C02_SPACE_SAVE = dict(
+    _C02, cls="ExperimentSpace", func="save_h5", name="src_space_save_h5", pyparams=["self", "path"],
+    params=[("self", "space")], returns="h5raw", vars={"f": "h5raw"},
+    contexts=[("h5py.File(path, 'w')", "h5_empty", "h5raw")],
+    prims=_CODEC + _TUPLE_ITEMS + [
+        ("self.treatment_mapping", "tmap_cols (sp_tmap self')", _TMAP_T), ("self.sample_mapping", "smap_cols (sp_smap self')", _SMAP_T),
+        ("self.control_treatment_name", "sp_ctrl self'", "name")],
+    effects=_h5_writes(_SPACE_DATASETS, ""),
+    assign_effects=_SET_CTRL,
+    implicit_return="{f}",
+)
+C02_SPACE_LOAD = dict(
+    _C02, cls="ExperimentSpace", func="load_h5", name="src_space_load_h5", pyparams=["cls", "path"],
+    params=[("h5", "h5raw")], returns="space",
+    vars={"f": "h5raw", "treatment_mapping": _TMAP_T, "sample_mapping": _SMAP_T, "control_treatment_name": "name"},
+    contexts=[("h5py.File(path, 'r')", "h5", "h5raw")],
+    prims=_CODEC + _h5_reads(_SPACE_DATASETS) + [_GET_CTRL],
+    kwcalls=_SPACE_ON_ARRAYS,
+)
+ALL += C02_CODEC + [C02_SCREEN_SAVE, C02_SCREEN_LOAD, C02_SPACE_FROM_SCREEN, C02_SPACE_SAVE, C02_SPACE_LOAD]
